@@ -96,3 +96,43 @@ Qed.
 (* the example routine is well-typed in the sense of Src/WellTyped.v (no field table needed) *)
 Example ex_ast_well_typed : well_typed (fun _ _ => None) false ex_ast = true.
 Proof. vm_compute. reflexivity. Qed.
+
+(* ---- a subroutine: one scratch-convention argument, a loop adding it three times, retsub ---- *)
+Definition ex_sub : routine :=
+  mkRoutine 1 "f" TUint [(false, 5%N)]
+    (ESeq [ EOp O_store [ASlot 0] TNone [x_int 0];
+            EOp O_store [ASlot 1] TNone [x_int 0];
+            EWhile (EOp O_lt [] TUint [EOp O_load [ASlot 1] TUint []; x_int 3])
+                   (ESeq [ x_st (ENary O_add TUint [x_ld; EParam 0]);
+                           EOp O_store [ASlot 1] TNone
+                               [ENary O_add TUint [EOp O_load [ASlot 1] TUint []; x_int 1]] ]);
+            EReturn (Some x_ld) ]) None.
+
+Definition sub_opts : copts := mkOpts 6 true false false (fun _ => 0%N) (fun _ _ => 0%N).
+Definition ex_env_sub : denv := mkEnv ex_ctx (fun n => n) [] [] true (param_instr sub_opts ex_sub).
+Definition sub_cr : croutine :=
+  match compile_one sub_opts (Some ex_sub) (decl_body sub_opts ex_sub) with
+  | COk cr => cr | CErr _ => mkCR None empty_graph 0 0 end.
+Definition sub_final : mstate :=
+  match denote ex_env_sub 100 (root_ast (decl_body sub_opts ex_sub)) [VI 4] ex_st with DRet _ st => st | _ => ex_st end.
+
+Example subroutine_end_to_end_example :
+  compile_one sub_opts (Some ex_sub) (decl_body sub_opts ex_sub) = COk sub_cr /\
+  sort_blocks (cr_graph sub_cr) (cr_start sub_cr) (cr_end sub_cr) = Some (order_of sub_cr) /\
+  flatten_blocks (cr_graph sub_cr) (order_of sub_cr) = Some (code_of sub_cr) /\
+  consistent ex_env_sub (routine_ctx sub_opts (Some ex_sub)) /\
+  denote ex_env_sub 100 (root_ast (decl_body sub_opts ex_sub)) [VI 4] ex_st = DRet [VI 12] sub_final /\
+  lstar ex_env_sub (code_of sub_cr) (LAt 0 [VI 4] ex_st) (LRet [VI 12] sub_final) /\
+  lrun 200 ex_env_sub (code_of sub_cr) (LAt 0 [VI 4] ex_st) = LRet [VI 12] sub_final.
+Proof.
+  assert (E : compile_one sub_opts (Some ex_sub) (decl_body sub_opts ex_sub) = COk sub_cr) by (vm_compute; reflexivity).
+  assert (HS : sort_blocks (cr_graph sub_cr) (cr_start sub_cr) (cr_end sub_cr) = Some (order_of sub_cr)) by (vm_compute; reflexivity).
+  assert (HF : flatten_blocks (cr_graph sub_cr) (order_of sub_cr) = Some (code_of sub_cr)) by (vm_compute; reflexivity).
+  assert (Hc : consistent ex_env_sub (routine_ctx sub_opts (Some ex_sub))) by (split; reflexivity).
+  assert (Dn : denote ex_env_sub 100 (root_ast (decl_body sub_opts ex_sub)) [VI 4] ex_st = DRet [VI 12] sub_final)
+    by (vm_compute; reflexivity).
+  repeat (split; [assumption|]).
+  split; [|vm_compute; reflexivity].
+  destruct (subroutine_end_to_end sub_opts ex_sub sub_cr _ _ eq_refl E HS HF) as [_ T].
+  apply (T ex_env_sub Hc 100 [VI 4] ex_st). rewrite Dn. reflexivity.
+Qed.
